@@ -159,3 +159,20 @@ func vTransOK(t pr.SDimensions) bool {
 //@   call SetKeywords#1 assert arg1 == d.Metadata.Keywords
 //@   call SetDateCreation#1 assert arg1 == d.Metadata.Created
 //@   call SetDateModification#1 assert arg1 == d.Metadata.Modified
+
+// Each link of the page is handed to the backend with the target resolveLinks kept — the very name the
+// anchors are created under — and with its rectangle mapped through the page matrix; a link goes to the
+// backend call of its own kind.
+//@ func (Document).addHyperlinks
+//@   props C14
+//@   modifies anything
+//@   call AddInternalLink#1 assert[same-name-as-anchor] link.Type == "internal" && arg5 == link.Target
+//@   call AddExternalLink#1 assert link.Type == "external" && arg5 == link.Target
+//@   call AddFileAnnotation#1 assert link.Type == "attachment" && arg5 == link.Target
+//@   call AddInternalLink#1 assert[rectangle] arg1 == xMin && arg2 == yMin && arg3 == xMax && arg4 == yMax
+
+// anchors are moved by the page matrix, nothing else about them changes
+//@ func (*Document).scaleAnchors
+//@   props C14
+//@   modifies anchors[..]
+//@   loop 1 step[name-kept] anchors[rangeindex].Name == old(anchors[rangeindex+1].Name)
